@@ -119,6 +119,29 @@ func (g *KeyGen) Inflate(r *rand.Rand, lo, hi int) {
 	g.Pool = pool
 }
 
+// AddPadded adds, for a third of the pool keys, variants with one or two trailing 0x00 bytes (the same user
+// key under the ZeroPad comparer).
+func (g *KeyGen) AddPadded(r *rand.Rand) {
+	seen := map[string]bool{}
+	for _, k := range g.Pool {
+		seen[string(k)] = true
+	}
+	n := len(g.Pool)
+	for j := 0; j < n; j++ {
+		if r.Intn(3) != 0 {
+			continue
+		}
+		k := append(append([]byte{}, g.Pool[j]...), 0)
+		if r.Intn(2) == 0 {
+			k = append(k, 0)
+		}
+		if !seen[string(k)] {
+			seen[string(k)] = true
+			g.Pool = append(g.Pool, k)
+		}
+	}
+}
+
 // Pick returns one pool key (callers must not modify it).
 func (g *KeyGen) Pick(r *rand.Rand) []byte { return g.Pool[r.Intn(len(g.Pool))] }
 
